@@ -59,6 +59,11 @@ func (p Password) Match(pw string) (bool, error) {
 		if err != nil {
 			return false, err
 		}
+		if len(key) == 0 {
+			// the key derived with length 0 is empty for
+			// every password
+			return false, errors.New("empty key")
+		}
 		salt, err := hex.DecodeString(p.Salt)
 		if err != nil {
 			return false, err
